@@ -491,7 +491,10 @@ def do_read(case, top, target, rd):
             kw = {}
             if flags & 8:
                 kw["initBindings"] = {"s": TERM[1]}
-            qobj = prepareQuery(text) if flags & 4 else text
+            if flags & 4:        # one prepared object per query text and case: re-used by the second call
+                qobj = _PREPARED.get(text) or _PREPARED.setdefault(text, prepareQuery(text))
+            else:
+                qobj = text
             res = target.query(qobj, **kw)
             if res.type == "ASK":
                 return ["ASK", bool(res.askAnswer)]
@@ -732,7 +735,11 @@ def api_name(rd):
     return rd[0] + "/" + str(rd[1])
 
 
+_PREPARED = {}
+
+
 def run_impl(case):
+    _PREPARED.clear()
     top, target = build(case)
     obs, viol, stats = [], [], {}
     before = snapshot(case, top)
